@@ -71,6 +71,8 @@ def main():
         harness_error(f'bootstrap failed: {type(e).__name__}: {e}')
 
     options = dict(getattr(prop, 'options', {}))
+    if hasattr(prop, 'prepare'):
+        prop.prepare()
 
     # ---------------------------------------------------------------- replay
     if args.replay:
